@@ -130,6 +130,8 @@ def classify(e, f, impl, kind):
     tops = top_tokens(impl["tokens"])
     if any(kd == "tree" and tok[1] == "1" and eb[a:a + 1] != b"/" for tok in tops for kd, a, _ in [kind_span(tok)]):
         return "K-PART-FLAG-ROOTED-TREE"
+    if kind == "rebuild" and "(?" in e:
+        return "K-PART-FLAG-LOSS"
     if re.search(r"\[[^\]]*/[^\]]*\]", e):
         return "K-PART-SEPCLASS"
     if kind in ("rooted-postfix", "repartition") or (kind == "language" and tops and kind_span(tops[0])[0] in ("rep", "alt")):
